@@ -2,6 +2,7 @@
 from cfg import CFG
 from prov import narrow
 from pat import *
+from facts import Operand
 
 EXPLANATION = ("type-directed completeness of the package visitor: the set of AST positions from which a PackagePath/PackageName is "
                "reachable is computed from the ADT definitions of wac-parser, and every such variant payload / field must be projected "
@@ -97,9 +98,42 @@ def run(ctx):
             continue
         check_no_break(ctx, f)
 
+    check_stop_only_on_callback(ctx, vis)
     check_origins(ctx, vis)
     check_callback_args(ctx, vis)
     check_self_package(ctx, vis)
+
+
+def check_stop_only_on_callback(ctx, vis):
+    """R17.1: the visitor methods return `false` to stop the whole walk.  A `false` may only be produced where the callback
+    (or a nested visitor method) returned `false`; a position that merely contains no package reference (a local world
+    name, a type) must answer `true`, or every package referenced later in the document goes unreported."""
+    db, prov = ctx.db, ctx.prov
+    n = 0
+    for f in vis:
+        if "{closure" in f.id or f.local_ty(0) != "bool":
+            continue
+        cfg = CFG(f)
+        # false edges of tests of a callback / visitor-method result
+        stops = set()
+        for t in f.calls():
+            is_cb = t.callee.get("path") == "<indirect>" or (t.declared or "").endswith(("FnMut::call_mut", "FnMut::call", "FnOnce::call_once")) or (t.path or "").startswith(VIS)
+            if not is_cb or t.target is None:
+                continue
+            for b in f.blocks:
+                if b.term.k == "switch" and any(x is t for _, x in prov.slice(f, Operand(b.term.j["discr"])).calls):
+                    tt, ft = true_false_targets(b.term)
+                    stops |= set(ft) | set(tt)      # either polarity: the result itself decides (`!cb(..)` / `cb(..)`)
+        for st in f.stmts():
+            v = st.rv.ops[0].const_value() if st.rv.k == "use" and st.rv.ops else None
+            if st.lhs.local == 0 and not st.lhs.proj and v == ("bool", False):
+                n += 1
+                ok = any(cfg.dominates(x, st.bb) for x in stops)
+                ctx.ob("R17.1", "stop-only-on-callback|%s" % f.id.rsplit("::", 1)[1], ok,
+                       "`false` (stop) is returned only where the callback asked to stop" if ok else
+                       "`%s` answers `false` (stop the walk) on a path that does not depend on the callback: a position without a package reference ends discovery, later references are never reported"
+                       % f.id.rsplit("::", 1)[1], site="%s in %s" % (st.span, f.id))
+    ctx.ob("R17.1", "stop-sites", True, "constant `false` results in visitor methods: %d" % n, nontrivial=False)
 
 
 def check_no_break(ctx, f):
@@ -206,6 +240,11 @@ def check_callback_args(ctx, vis):
             ok_ver = ver_s.has_field("version")
             ok_span = span_s.has_field("span") or span_s.has_call("package_name_span")
             base = {l for l in narrow(prov, f, tup.rv.ops[0]).locals} & {l for l in narrow(prov, f, tup.rv.ops[1]).locals}
+            # … of the same node: the AST path that leads to `.name` is the path that leads to `.version`
+            pn = {(nm, o) for nm, o, v in narrow(prov, f, tup.rv.ops[0]).fields if o.startswith("wac_parser::ast") and nm != "name"}
+            pv = {(nm, o) for nm, o, v in narrow(prov, f, tup.rv.ops[1]).fields if o.startswith("wac_parser::ast") and nm != "version"}
+            if pn != pv:
+                base = set()
             ok = ok_name and ok_ver and ok_span and bool(base)
             ctx.ob("R17.3", "callback|%s@%d" % (f.id.rsplit("::", 1)[1], n), ok,
                    "callback receives (x.name, x.version, span of x) of the same node" if ok else
